@@ -27,7 +27,9 @@ def describe(tier):
                 "entry at each position). Oracle R7: discriminators in document order, exactly once, nothing below a forbidden node; the "
                 "status of every segment-level node and free-text element per the two documented tables incl. FILLED/EMPTY suffix; "
                 "NotImplementedError iff a VISITED MUSS/prefix node is undetermined. The node's own evaluation comes from evaluating its "
-                "expression alone with the real evaluate_ahb_expression_tree. Also through validate_segment_level with a segment group and with a segment as root. Non-trivial = trees with "
+                "expression alone with the real evaluate_ahb_expression_tree. Also through validate_segment_level with a segment group and with a segment as root. (d) E3: "
+                f"{len(ORD_SHAPES)} shapes with siblings x {2 * len(ORD_MENU)} labellings with SUSPENDING requirement / format / hint evaluators under all completion orders "
+                "(quick: <= 2 deviations from oldest-first) on the virtual event loop: every schedule's result list equals the zero-yield run and R7. Non-trivial = trees with "
                 ">= 3 nodes.",
         "bounds": b,
         "exhaustive": True,
@@ -57,10 +59,73 @@ def plan(tier, seed):
     # siblings that share a discriminator (legal: three DTM segments, two SG12 groups): every shape with <= 5 nodes
     for si in range(len(list(T.shapes(5 if tier == "quick" else 6, 2)))):
         items.append({"fam": "samenames", "shape": si, "nmax": 5 if tier == "quick" else 6})
+    # suspending evaluators: all completion orders (bounded for the larger shapes)
+    for si in range(len(ORD_SHAPES)):
+        for rot in range(len(ORD_MENU)):
+            for step in (1, 5):
+                items.append({"fam": "orders", "shape": si, "rot": rot, "step": step, "soll": (rot + step) % 2 == 0,
+                              "order_bound": None if si < 4 and tier != "quick" else (2 if tier == "quick" else 4)})
     # wide nodes (deviation-bounded labelling): k top-level groups / k sub groups + m segments / k data elements
     for k in (3, 5, 8, 9, 11, 17):
         items.append({"fam": "wide", "k": k})
     return items
+
+
+# E3 family: suspending evaluators, all completion orders (virtual event loop) for trees with siblings
+ORD_SHAPES = [
+    (("G", (), ()), ("G", (), ())),                                   # two top-level groups
+    (("G", (), (("S", ()), ("S", ()))),),                             # a group with two segments
+    (("G", (("G", (), ()),), (("S", ("F",)),)),),                    # sub group + segment with a free-text element
+    (("G", (), (("S", ("F", "F")),)),),                              # a segment with two free-text elements
+    (("G", (), (("S", ("F",)), ("S", ("P",)))), ("G", (), ())),      # 6 nodes: two groups, two segments, two elements
+]
+ORD_MENU = ["Muss [1]", "Soll [2] U [501]", "Kann [1][901]", "Muss [2]", "X [1] U [502]", "Muss [3]"]
+
+
+def _orders_setup(item):
+    import json
+
+    from checks import c12
+    from mc import vloop
+
+    H.init()
+    c12.worker_init()
+    shape = ORD_SHAPES[item["shape"]]
+    n = T.count_nodes(shape)
+    exprs = [ORD_MENU[(i * item["step"] + item["rot"]) % len(ORD_MENU)] for i in range(n)]
+    groups = H.model_from(shape, exprs, item["rot"])
+    rc = dict(zip(("1", "2", "3"), H.PERMS[0]))
+
+    def factory_for(zero):
+        def factory(sched):
+            env = c12._env(sched, rc=rc, fc=dict(H.FC), hints=dict(H.HINTS), packages=dict(H.PACKAGES), yields={"*": 0} if zero else None)
+
+            async def go():
+                return H.V.observe(await H.V.validate_deep_anwendungshandbuch(H.V.build_ahb(groups), item["soll"]))
+
+            return c12._with_env(env, go)
+
+        return factory
+
+    def observe(ex):
+        if ex.exception is not None:
+            return json.dumps(["exc", type(ex.exception).__name__])
+        return json.dumps(["ok", ex.result], ensure_ascii=False, default=repr)
+
+    return vloop, factory_for, observe, groups, exprs
+
+
+def _orders_violations(item, groups, out_json, base_json):
+    import json
+
+    got = json.loads(out_json)
+    vs = []
+    diff = H.compare(groups, 0, item["soll"], tuple(got))
+    if diff is not None:
+        vs.append((diff[0] + "/completion-order", diff[1], diff[2]))
+    if out_json != base_json:
+        vs.append(("depends-on-completion-order", json.loads(base_json), got))
+    return vs
 
 
 def worker_init():
@@ -117,6 +182,22 @@ def run_item(item):
     H.init()
     r = Result()
     fam = item["fam"]
+    if fam == "orders":
+        vloop, factory_for, observe, groups, exprs = _orders_setup(item)
+        base = observe(vloop.run_schedule(factory_for(True), []))
+        exp = vloop.explore(factory_for(False), observe, order_bound=item["order_bound"], early_bound=0)
+        r.evaluations += exp.schedules
+        r.states += exp.decision_points
+        r.transitions += exp.decision_points
+        r.traces += exp.schedules
+        r.nontrivial += max(0, len(exp.completion_traces) - 1)
+        r.stat("schedules", exp.schedules)
+        for out in set(exp.outcomes) | {base}:
+            case = {"orders": item, "choices": exp.first_schedule_of_outcome.get(out, []), "zero_yield": out not in exp.outcomes}
+            for kind, e, o in _orders_violations(item, groups, out, base):
+                r.violation(kind, case, e, o, f"exprs={exprs} soll_is_required={item['soll']}")
+        r.sample({"orders": item, "exprs": exprs, "schedules": exp.schedules})
+        return r
     if fam == "chain":
         for rest in itertools.product(H.CHAIN_MENU, repeat=3):
             exprs = (H.CHAIN_MENU[item["first"]],) + rest
@@ -175,5 +256,11 @@ def _tup(x):
 
 
 def replay(case):
+    if "orders" in case:
+        item = case["orders"]
+        vloop, factory_for, observe, groups, exprs = _orders_setup(item)
+        base = observe(vloop.run_schedule(factory_for(True), []))
+        out = base if case.get("zero_yield") else observe(vloop.run_schedule(factory_for(False), case["choices"]))
+        return [{"kind": k, "case": case, "expected": e, "observed": o} for k, e, o in _orders_violations(item, groups, out, base)]
     return check_case(_tup(case["shape"]), case["exprs"], case["cer"], case["soll_is_required"], case.get("entry", "deep"),
                       case.get("variant", 0), case.get("same_names", False))
